@@ -138,7 +138,8 @@ Complete(docs, paths) == \A h \in Headings(docs) : \E p \in paths : p # <<>> /\ 
 (* replaced by that note's content squashed with d-1; references to        *)
 (* missing notes and references at depth 0 stay links; everything else is  *)
 (* kept once.  Content is compared as a bag of texts (sibling order of     *)
-(* expanded references is left free).  "ref:<text>" marks a kept link.     *)
+(* expanded references is left free).  Entries are <<"text", <<word>>>> and  *)
+(* <<"ref", key>> (a kept link), both with a sequence as second component. *)
 (***************************************************************************)
 RECURSIVE SquashBag(_, _, _), SumBags(_)
 SumBags(bs) == IF bs = <<>> THEN EmptyBag ELSE Head(bs) (+) SumBags(Tail(bs))
@@ -148,9 +149,9 @@ BlockBag(docs, k, b, d) ==
     THEN LET t == Resolve(Dir(k), b.links[1].url)
          IN  IF d > 0 /\ Has(docs, t) THEN SquashBag(docs, t, d - 1)
              ELSE SetToBag({<<"ref", t>>})
-    ELSE SetToBag({<<"text", b.text>>})
+    ELSE SetToBag({<<"text", <<b.text>>>>})
 
 SquashBag(docs, k, d) ==
-    (IF docs[k].title # "" THEN SetToBag({<<"text", docs[k].title>>}) ELSE EmptyBag)
+    (IF docs[k].title # "" THEN SetToBag({<<"text", <<docs[k].title>>>>}) ELSE EmptyBag)
     (+) SumBags([bi \in 1..Len(docs[k].blocks) |-> BlockBag(docs, k, docs[k].blocks[bi], d)])
 =============================================================================
